@@ -233,6 +233,13 @@ def check(run, prog):
         sigs_nt, _ = zip(*[mk(prog, cls, k, nchan=2, start=st, align="bottom") for k, st in enumerate((False, True, True))])
         ck.number_types("NT", fi.where, f"concatenate([{cls} x3], axis={axv})",
                         lambda ev, mkn, sigs_nt=sigs_nt, axv=axv: ev.call(fi, [ListV(list(sigs_nt))], {"axis": mkn(axv)}))
+    # negative axes count from the end: for a signal with a trailing axis, axis=-1 is that axis, not the frequency axis
+    for cls, ax_pos, ax_neg in (("RadioSignal", 2, -1), ("IntensitySignal", 2, -1)):
+        sigs_ax, _ = zip(*[mk(prog, cls, k, nchan=2, start=True, align="bottom", extra=(sp.Integer(3),)) for k in range(2)])
+        ck.forms("NT", fi.where, f"concatenate([{cls}(N, 2, 3) x2], axis)",
+                 lambda ev, v, sigs_ax=sigs_ax: ev.call(fi, [ListV(list(sigs_ax))], {"axis": v}),
+                 [(f"axis={ax_pos}", Num(ax_pos)), (f"axis={ax_neg}", Num(ax_neg))],
+                 "a negative axis names the same axis as its non-negative spelling")
     run.extra["decided_by"] = ck.how
 
 
